@@ -13,8 +13,9 @@ TEXTS = {
 TEXTS["C02"] = {
     "text": "Proved on the Lean model of HandleIBTP/checkIBTP/ProcessIBTP/applyTransaction for all states and IBTPs: the index gate accepts exactly counter+1 "
             "(C02_index_check_exact, C02_accept_needs_next_index); an IBTP rejected by the proof/signature check or by the contract leaves the contract store and the "
-            "delivery events untouched (C02_rejected_by_check_no_effect, C02_rejected_by_contract_no_effect). The full clause 'any rejected IBTP has no effect' is false "
-            "of the code and is kept with a machine-checked counter-example (fee failure after processing: C02_rejected_no_effect_false), listed as a known finding. "
+            "delivery events untouched (C02_rejected_by_check_no_effect, C02_rejected_by_contract_no_effect). The full clause 'any rejected IBTP has no effect' "
+            "(C02_rejected_no_effect_holds, via the journal-faithfulness lemmas of C07) holds since the fix: commits 80242227/15f50afb; the former counter-example (fee failure after processing) is now "
+            "the positive theorem C02_fee_failed_not_listed and its corpus witness is replayed on every run. "
             "Model is run against the real executor+contracts on generated histories; model-free monitor recomputes accepted indices, counters and delivery sets from receipts.",
     "note": TB,
     "technique": "Lean 4 theorems over an executable model of the interchain contract + differential correspondence with the real executor",
@@ -106,3 +107,14 @@ TEXTS["C11"] = {
     "technique": "Lean 4 iff-characterisation over the crash-mask model + exhaustive crash injection on the real stores (correspondence)",
 }
 NOT_YET = {}
+
+TEXTS["C07"] = {
+    "text": "Proved for every ledger, configuration and transaction of the exec op language on the model of applyTransaction/applyBxhTransaction/payGasFee/payLeftAsGasFee and of all modelled "
+            "contract functions: every write goes through the journaled setters (Steps lemmas for 20 functions), undoing the journal restores storage and balances (Steps.faithful, revert_restores), hence a FAILED "
+            "receipt — rejected before execution, contract error, or unpayable fee after full processing — leaves every storage key unchanged (C07_failed_tx_storage_unchanged), changes no balance but the sender's and the admins' "
+            "(C07_failed_tx_balances_unchanged), carries no event / is never listed (C07_failed_tx_not_listed) and leaves an empty journal (C07_journal_reset). One modelled post-effect error on the IBTP path (audit record missing) is an explicit hypothesis (auditHole). "
+            "On the real node a model-free monitor brackets every all-failed block and every run of view executions with a dump of all committed contract storage, balances and nonces. "
+            "Three defects were repaired by fix: commits (stale state changer, un-journaled AddState, events of failed transactions processed).",
+    "note": TB + " Nonces, EVM/XVM (out-of-gas) failures and governance contracts are not in the model; they are covered by the dump monitor only (governance calls) or not at all (EVM/XVM).",
+    "technique": "Lean 4 invariant proof (journal faithfulness over all contract writes) + differential correspondence + full-state dump monitor on the real executor",
+}
